@@ -249,7 +249,9 @@ CLAIMED["C17"] = {
              "char_pop_front reassembles exactly those bits and leaves exactly the following text, for each of the four lengths (hence the "
              "round trip for all 1,112,064 scalars without enumerating them); (C) bytes >= 0x80 are ordinary in every tokenizer state; (D) the "
              "counting helpers feed each byte once, in order, to a fresh accumulator and step their counter iff it reports a scalar; the value "
-             "common_prefix_len returns takes the byte count exactly on bytes that complete a scalar and is unchanged on every other byte. "
+             "common_prefix_len returns takes the byte count exactly on bytes that complete a scalar and is unchanged on every other byte; "
+             "char_count returns that counter; char_byte_index(text, k) returns Some(bytes consumed) exactly when k scalars are complete and the "
+             "last consumed byte completed one, None only at the end of the text (k = 0..3, every sequence of decoder answers). "
              "The composition of (A) and (D) into `count = number of scalars` is an argument in DESIGN.md, its premises are what is checked." + IMP +
              "C05.units/move (cursor positions are whole characters) and C12.from_command (no scalar other than `h` is taken for the help option)."),
     "design_ref": "DESIGN.md §4 C17",
